@@ -27,7 +27,7 @@ var Metas = map[string]Meta{
 	"C12": {Category: "exploration", Rule: "one run = history h1 (possibly abandoned, failed, closed), Reset, history h2, compared with a fresh Writer running h2; non-trivial = h1 wrote at least one byte; distinct = distinct schedule signature"},
 	"C14": {Category: "fault_enumeration", Rule: "for each sampled workload the sink fails at call k for every k (thorough, and quick when the fault-free run makes <= 64 calls; otherwise first/last 8 and a stratified sample); one evaluation = one (workload, k) run; non-trivial = the injected fault actually fired; distinct = distinct schedule signature"},
 	"C16": {Category: "exploration", Rule: "all histories over {Write(0), Write(small), Write(70000), Flush, Close, Reset} up to length 4 (5 thorough), the constructor level table -4..11, then random histories up to length 40, each in lock-step with the stdlib Writer; non-trivial = more than one operation; distinct = distinct schedule signature"},
-	"C02": {Category: "exploration", Rule: "one run = one stream accepted by compress/flate (stdlib or fastgo encoder history, or block synthesiser) read through a drawn source kind, delivery schedule and Read-size schedule; non-trivial = stdlib accepts and the output is non-empty; distinct = distinct schedule signature (source refill sizes/outcomes, result)"},
+	"C02": {Category: "exploration", Rule: "every 3989th run index is a phase sweep (4144 streams of [fresh byte + 258 zeros] units behind a head swept over 259 lengths and a tail of 0..15 bytes: a (literal, maximal match) table entry at every output offset around the 64 KiB mark and every distance from the end of the input); otherwise one run = one stream accepted by compress/flate (stdlib or fastgo encoder history, or block synthesiser) read through a drawn source kind, delivery schedule and Read-size schedule; non-trivial = stdlib accepts and the output is non-empty; distinct = distinct schedule signature (source refill sizes/outcomes, result)"},
 	"C03": {Category: "exploration", Rule: "one run = one malformed/truncated/random input (planted structural fault, blind mutation, truncation; every 17th (thorough: 67th) run index sweeps the truncation point over every byte of a small valid stream) on a fresh or reused Reader; non-trivial = non-empty input; distinct = distinct schedule signature"},
 	"C04": {Category: "exploration", Rule: "one run = one valid or truncated stream read all-at-once and under 8 (12 thorough) delivery/Read-size schedules, three of them aimed at a block header or block end; one evaluation = one schedule; non-trivial = non-empty input; distinct = distinct schedule signature"},
 	"C05": {Category: "exploration", Rule: "every 193rd run index sweeps 300 (thorough 900) consecutive payload lengths of one encoder setting with a suffix behind the stream; otherwise one run = valid stream/container followed by a suffix, read to io.EOF through a source kind and constructor; non-trivial = non-empty suffix; distinct = distinct schedule signature"},
